@@ -253,6 +253,7 @@ impl<K: KeyT> SetWorld<K> {
             vio!(self, c, "{det}");
         }
         self.ctx.note_state(&d);
+        self.ctx.group_monitor(&d)?;
         let act = self.actual(si);
         if act.iter().any(|x| !x.1) {
             vio!(self, "ledger/invalid-ref", "the set holds an element that is not live");
@@ -284,6 +285,7 @@ impl<K: KeyT> SetWorld<K> {
             let diff = a.iter().zip(m.iter()).find(|(x, y)| x != y);
             vio!(self, format!("contents/{}", self.ctx.op_kind), "stored elements differ from the model; first difference (actual, model) = {:?}", diff);
         }
+        self.ctx.transcript_add(si, len, a.iter().map(|e| e.0 as u64));
         if len as u32 <= self.ctx.cfg.sweep_below {
             self.sweep(si)?;
         }
